@@ -1266,13 +1266,15 @@ fn gen_dwarf(seed: u64, endian: RunTimeEndian) -> Result<Secs, String> {
             let wd = mk(&b"/work/dir"[..], &mut dwarf.line_strings);
             let sf = mk(&b"main.c"[..], &mut dwarf.line_strings);
             let mut p = write::LineProgram::new(enc, lenc, wd, None, sf, None);
-            if enc.version >= 5 && r.chance(1, 2) {
-                p.file_has_md5 = true;
+            // every subset of {timestamp, size, MD5, source} independently (DWARF 5 entry formats;
+            // earlier versions always carry timestamp and size)
+            p.file_has_timestamp = r.chance(1, 2);
+            p.file_has_size = r.chance(1, 2);
+            if enc.version >= 5 {
+                p.file_has_md5 = r.chance(1, 2);
+                p.file_has_source = r.chance(1, 3);
             }
-            if r.chance(1, 2) {
-                p.file_has_timestamp = true;
-                p.file_has_size = true;
-            }
+            let has_source = p.file_has_source;
             let mut dirs = vec![p.default_directory()];
             for k in 0..r.below(3) {
                 let name = format!("inc{}", k);
@@ -1282,8 +1284,9 @@ fn gen_dwarf(seed: u64, endian: RunTimeEndian) -> Result<Secs, String> {
             let mut files = Vec::new();
             for k in 0..r.range(1, 4) {
                 let name = format!("f{}.h", k % 3);
-                let info = if r.chance(1, 2) {
-                    Some(write::FileInfo { timestamp: r.below(1000), size: r.below(100_000), md5: [k as u8 + 1; 16], source: None })
+                let info = if r.chance(5, 6) {
+                    let source = if has_source { Some(mk(format!("source text {}", k).as_bytes(), &mut dwarf.line_strings)) } else { None };
+                    Some(write::FileInfo { timestamp: 1 + r.below(1000), size: 1 + r.below(100_000), md5: [k as u8 + 1; 16], source })
                 } else {
                     None
                 };
@@ -1544,7 +1547,7 @@ fn gen_frame(seed: u64, endian: RunTimeEndian, eh: bool) -> Result<Vec<u8>, Stri
             if off >= len {
                 break;
             }
-            let reg = Register(*r.pick(&[3u16, 6, 12, 16, 70]));
+            let reg = Register(*r.pick(&[0u16, 3, 6, 12, 16, 62, 63, 64, 65, 70]));
             let d = daf as i32 * r.range(0, 20) as i32;
             let ins = match r.below(17) {
                 0 => { cfa_is_expr = false; write::CallFrameInstruction::Cfa(Register(*r.pick(&[6u16, 7])), *r.pick(&[8i32, 16, 4096, -8, -16]) / if daf < 0 { 1 } else { 1 }) }
